@@ -97,8 +97,10 @@ class AbstractJunction(AbstractCondition, ABC):
                         condition,
                         NamedQuery
                 ) and none_table not in condition.tables and not condition._inverted:
+                    # the merged query joins every table any member needs, so alternatives
+                    # on one name are merged only when they read the same tables
                     named_query_dict[
-                        condition.name
+                        (condition.name, frozenset(condition.tables) if issubclass(cls, Or) else None)
                     ].add(
                         condition
                     )
@@ -107,7 +109,7 @@ class AbstractJunction(AbstractCondition, ABC):
 
         add_conditions(conditions)
 
-        for name, queries in named_query_dict.items():
+        for (name, _), queries in named_query_dict.items():
             # noinspection PyTypeChecker
             new_conditions.add(
                 NamedQuery(
